@@ -291,6 +291,112 @@ func runC02(c *mon.Ctx) {
 	})
 	lap("amplifiers")
 
+	// (6b) Type 2 charstrings as token soup: a small valid CFF font (written
+	// from the specification) whose glyph program, local and global subroutine
+	// are arbitrary sequences of operands and operators - operators on an empty
+	// or short stack, storage operators in any order (get before put, indices
+	// around 0..31), index/roll with hostile counts, calls without operand or
+	// out of range, masks without stems or without their bytes, reserved codes,
+	// truncated numbers
+	c.Stratum("charstrings", c.N(24000, 2000000), func(k *mon.Case) {
+		r := k.Rng
+		var prog func(n int) []byte
+		num := func() []byte {
+			switch r.IntN(8) {
+			case 0:
+				return []byte{139} // 0
+			case 1:
+				v := []int{-1, 1, 31, 32, 33, -32, 47, 48, 49, 107, -107}[r.IntN(11)]
+				return []byte{byte(v + 139)}
+			case 2:
+				v := 108 + r.IntN(1024)
+				return []byte{byte((v-108)>>8 + 247), byte(v - 108)}
+			case 3:
+				v := 108 + r.IntN(1024)
+				return []byte{byte((v-108)>>8 + 251), byte(v - 108)}
+			case 4:
+				v := r.IntN(65536)
+				return []byte{28, byte(v >> 8), byte(v)}
+			case 5:
+				return []byte{255, byte(r.IntN(256)), byte(r.IntN(256)), byte(r.IntN(256)), byte(r.IntN(256))}
+			default:
+				return []byte{byte(139 + r.IntN(40) - 8)}
+			}
+		}
+		ops := [][]byte{{1}, {3}, {4}, {5}, {6}, {7}, {8}, {10}, {11}, {14}, {18}, {19}, {20}, {21}, {22}, {23}, {24}, {25}, {26}, {27}, {29}, {30}, {31},
+			{12, 3}, {12, 4}, {12, 5}, {12, 9}, {12, 10}, {12, 11}, {12, 12}, {12, 14}, {12, 15}, {12, 18}, {12, 20}, {12, 21}, {12, 22}, {12, 23}, {12, 24},
+			{12, 26}, {12, 27}, {12, 28}, {12, 29}, {12, 30}, {12, 34}, {12, 35}, {12, 36}, {12, 37},
+			{0}, {2}, {9}, {13}, {15}, {16}, {17}, {12, 0}, {12, 1}, {12, 2}, {12, 6}, {12, 7}, {12, 8}, {12, 13}, {12, 16}, {12, 17}, {12, 19}, {12, 25}, {12, 38}, {12, 255}}
+		storage := [][]byte{{12, 20}, {12, 21}, {12, 29}, {12, 30}, {12, 18}, {12, 27}, {12, 28}} // put get index roll drop dup exch
+		prog = func(n int) []byte {
+			var out []byte
+			for i := 0; i < n; i++ {
+				switch q := r.IntN(10); {
+				case q < 5:
+					out = append(out, num()...)
+				case q < 7:
+					out = append(out, storage[r.IntN(len(storage))]...)
+				default:
+					op := ops[r.IntN(len(ops))]
+					out = append(out, op...)
+					if (op[0] == 19 || op[0] == 20) && r.IntN(3) != 0 {
+						for j := r.IntN(3); j > 0; j-- {
+							out = append(out, byte(r.IntN(256))) // mask bytes (or too few of them)
+						}
+					}
+				}
+			}
+			switch r.IntN(4) {
+			case 0:
+			case 1:
+				out = append(out, 11) // return
+			default:
+				out = append(out, 14) // endchar
+			}
+			if r.IntN(12) == 0 && len(out) > 1 {
+				out = out[:len(out)-1-r.IntN(min(3, len(out)-1))] // truncated number / operator
+			}
+			return out
+		}
+		catalog := [][]byte{
+			{139, 12, 21, 12, 18, 14},                        // 0 get drop endchar: get before any put
+			{170, 12, 21, 14},                                // 31 get
+			{171, 12, 21, 14},                                // 32 get
+			{138, 12, 21, 14},                                // -1 get
+			{140, 171, 12, 20, 14},                           // 1 32 put
+			{140, 138, 12, 20, 14},                           // 1 -1 put
+			{140, 139, 12, 20, 140, 12, 21, 14},              // put 0, get 1
+			{138, 12, 29, 14},                                // -1 index on an empty stack
+			{140, 141, 142, 28, 0x7f, 0xff, 139, 12, 30, 14}, // roll with a huge count
+			{12, 12, 14}, {139, 139, 12, 12, 14},             // div on an empty stack, 0 / 0
+			{138, 12, 26, 14},  // sqrt of -1
+			{10, 14}, {29, 14}, // calls without operand
+			{28, 0x7f, 0xff, 10, 14}, {28, 0x80, 0x00, 29, 14}, // calls far out of range
+			{19, 14}, {20}, // masks without stems / without bytes
+			{255, 1, 2}, // truncated 16.16 number
+		}
+		cs := prog(r.IntN(24))
+		if k.Index < len(catalog) {
+			cs = catalog[k.Index]
+			k.Class("charstrings:catalog")
+		}
+		spec := &cffSpec{charstrings: [][]byte{cs}}
+		if r.IntN(2) == 0 {
+			spec.subrs = [][]byte{prog(r.IntN(10)), prog(r.IntN(6))}
+		}
+		if r.IntN(3) == 0 {
+			spec.gsubrs = [][]byte{prog(r.IntN(10))}
+		}
+		b := c02cff(spec)
+		if c02run(k, dCFF, b, "token soup charstring") {
+			k.Class("charstrings:accepted")
+		} else {
+			k.Class("charstrings:rejected")
+		}
+		k.DistinctBytes(b)
+	})
+	lap("charstrings")
+
 	// (7) whole files: one table of a font replaced by a mutant (or dropped,
 	// duplicated under another tag, truncated); CFF-in-sfnt mutants
 	c.Stratum("fonts", c.N(9600, 480000), func(k *mon.Case) {
@@ -467,7 +573,7 @@ func runC02(c *mon.Ctx) {
 		"acc:glyf.Decode>SimpleGlyph.Decode", "acc:glyf.Decode>Glyphs.Encode",
 		"acc:gtab.Read(GSUB)>Encode", "acc:gtab.Read(GPOS)>Encode", "acc:gdef.Read>Encode", "acc:cff.Read>Write",
 		"fonts:cff-in-sfnt:accepted", "font:glyf", "font:cff", "font:cff-cid", "cff:cid-keyed", "cff:simple",
-		"truncate:exhaustive", "truncate:sampled", "fieldsweep:seeds", "fonts:cross-table:cmap-vs-glyph-count")
+		"truncate:exhaustive", "truncate:sampled", "fieldsweep:seeds", "fonts:cross-table:cmap-vs-glyph-count", "charstrings:catalog", "charstrings:accepted", "charstrings:rejected")
 	for _, a := range c02amps {
 		c.Require("amplifier:" + a.name)
 	}
